@@ -22,6 +22,25 @@ def check(run):
             run.ob("C09.R2", "%s:%s:%s" % (mod, name, fname), ok, site, what, fact[4] if len(fact) > 4 else None)
         for fname, ok, site, what in tcp.wirelog_facts(run, cls):
             run.ob("C09.R3", "%s:%s:%s" % (mod, name, fname), ok, site, what)
+    # R3b the wire log writes the data it is given to the log of the right direction
+    import ast as _ast
+    from ..astutil import method_call as _mc, unparse as _un
+    from ..index import walk_local as _wl, dotted as _dot
+    wlog = ix.cls("hio.core.wiring", "WireLog")
+    for meth, log, label in (("writeRx", "self.rxl", b"Rx"), ("writeTx", "self.txl", b"Tx")):
+        f = ix.method(wlog, meth)
+        writes = [n for n in _wl(f.node) if isinstance(n, _ast.Call) and _mc(n) and _mc(n)[1] == "write"]
+        ok = len(writes) == 1 and _mc(writes[0])[0] == log
+        d = None
+        if ok:
+            for x in _ast.walk(writes[0]):
+                if isinstance(x, _ast.Dict):
+                    d = {k.value: v for k, v in zip(x.keys, x.values) if isinstance(k, _ast.Constant)}
+            ok = d is not None and _dot(d.get(b"data")) == f.params()[0][1] and getattr(d.get(b"dx"), "value", None) == label
+        slices = [n for n in _wl(f.node) if isinstance(n, _ast.Subscript) and _dot(n.value) == f.params()[0][1]]
+        ok = ok and not slices
+        run.ob("C09.R3", "%s:writes-given-data-to-%s" % (f.fq, log.split(".")[1]), ok, run.site(f),
+               "" if ok else "WireLog.%s must write exactly the data it is given, labelled %r, to %s (found %s)" % (meth, label, log, [_un(w) for w in writes]))
     # R4 who-may-write in the tcp package
     n = 0
     for modname in (tcp.CM, tcp.SM):
@@ -36,7 +55,7 @@ def check(run):
                     n += 1
     run.floor("C09.R1", 12)
     run.floor("C09.R2", 20)
-    run.floor("C09.R3", 8)
+    run.floor("C09.R3", 10)
     run.floor("C09.R4", 14)
 
 
@@ -53,6 +72,8 @@ MUTANTS = [
     Mutant("remotertls-receive-slice", S, "RemoterTls.receive", "        return data", "        return data[:self.bs - 1]", {"C09.R2"}),
     Mutant("client-log-all-data", C, "Client.send", "self.wl.writeTx(data[:count], self.ha)", "self.wl.writeTx(data, self.ha)", {"C09.R3"}, canary=True),
     Mutant("remoter-log-rx-unguarded", S, "Remoter.receive", "            if self.wl:  # log over the wire rx\n                self.wl.writeRx(data, self.ca)\n", "", {"C09.R3"}),
+    Mutant("wirelog-tx-to-rx-log", "hio.core.wiring", "WireLog.writeTx", "self.txl.write(self.fmt % {b'dx': b'Tx'", "self.rxl.write(self.fmt % {b'dx': b'Tx'", {"C09.R3"}),
+    Mutant("wirelog-truncates", "hio.core.wiring", "WireLog.writeRx", "b'data': data})", "b'data': data[:64]})", {"C09.R3"}),
     Mutant("server-writes-txbs", S, "Server.transmitIx", "self.ixes[ca].tx(data)", "self.ixes[ca].txbs[:] = data", {"C09.R4"}),
     Mutant("silent-slice-zero", C, "Client.serviceSends", "            count = self.send(self.txbs)\n            del self.txbs[:count]", "            n = self.send(self.txbs)\n            del self.txbs[0:n]", silent=True),
 ]
